@@ -705,6 +705,33 @@ Section GetDouble.
   Proof. rewrite get_double_spec. discriminate. Qed.
 End GetDouble.
 
+(* ---------------- the results do not depend on the errno the caller happens to have.
+   The three integer accessors overwrite it; get_boolean never touches it; get_double either hands
+   it back untouched (null, boolean, integer and double nodes) or overwrites it (strings — where
+   the ERANGE test of the overflow rule therefore sees only THIS call's strtod — and containers). *)
+Theorem errno_independent strtod o e0 e1 :
+  get_int e0 o = get_int e1 o /\ get_int64 e0 o = get_int64 e1 o /\ get_uint64 e0 o = get_uint64 e1 o /\
+  (exists v, get_boolean e0 o = Ret v e0 /\ get_boolean e1 o = Ret v e1) /\
+  (exists v, (get_double strtod e0 o = Ret v e0 /\ get_double strtod e1 o = Ret v e1) \/
+             (exists e, get_double strtod e0 o = Ret v e /\ get_double strtod e1 o = Ret v e)).
+Proof.
+  repeat split; try reflexivity.
+  - eexists. rewrite !get_boolean_spec. split; reflexivity.
+  - destruct o as [| b | z | u | bits t | s | l | l];
+      try (eexists; left; split; reflexivity);
+      try (eexists; right; eexists; split; reflexivity).
+    rewrite !get_double_spec. eexists. right. eexists. split; reflexivity.
+Qed.
+
+(* the mutators and json_object_int_inc hand the caller's errno back *)
+Theorem step_mutator_errno strtod e0 o op r e o' :
+  num_step strtod e0 o op = (OSet r e, o') -> e = e0.
+Proof.
+  destruct op; cbn; try (destruct (_ : res Z); discriminate).
+  all: try (destruct (_ : Z * jv); intros H; inversion H; reflexivity).
+  destruct (int_inc o v); intros H; inversion H; reflexivity.
+Qed.
+
 (* ================================================================== 6. set then get *)
 
 Definition is_intnode (o : jv) : bool := match o with JInt _ | JUint _ => true | _ => false end.
